@@ -64,11 +64,15 @@ def draw_cell(rng):
     # dates: 1904-01-02 .. 9999-12-31 so that both date systems can store them; every 64th draw comes from the
     # 1900-03-01 .. 1904-01-01 stretch that only the 1900 system can hold (used with that system only)
     if kind == "d":
-        moment = datetime.datetime(1904, 1, 2) + datetime.timedelta(days=rng.randrange(0, 2957000), seconds=rng.randrange(1, 86400))
+        # (every 16th draw: the first weeks of 1904, whose serial numbers in the 1904 system are as small as the ones
+        # the 1900 system cannot tell apart)
+        days = rng.randrange(0, 59) if rng.random() < 1 / 16 else rng.randrange(0, 2957000)
+        moment = datetime.datetime(1904, 1, 2) + datetime.timedelta(days=days, seconds=rng.randrange(1, 86400))
         # timestamps taken from a clock carry fractions of a second; the text still shows whole seconds
         return ["d", moment.strftime("%Y-%m-%d %H:%M:%S"), rng.choice([0.0, 0.0, 0.25, 0.3, -0.3])]
     if kind == "date":
-        moment = datetime.datetime(1904, 1, 2) + datetime.timedelta(days=rng.randrange(0, 2957000))
+        moment = datetime.datetime(1904, 1, 2) + datetime.timedelta(
+            days=rng.randrange(0, 59) if rng.random() < 1 / 16 else rng.randrange(0, 2957000))
         if rng.random() < 0.15:
             moment = datetime.datetime(1900, 3, 1) + datetime.timedelta(days=rng.randrange(0, 1400))
         return ["date", moment.strftime("%Y-%m-%d %H:%M:%S")]
